@@ -1,24 +1,24 @@
 CONSTANTS
   Procs = {1}
-  Clients = {"c1", "c2", "c3"}
+  Clients = {"c1", "c2"}
   Forms = {"v4"}
   CCs = {}
   SVs = {}
   Shorts = {}
-  Protos = {"udp"}
-  Questions = {"q1", "fresh"}
+  Protos = {"udp", "tcp"}
+  Questions = {"big1", "q1"}
   Entries = {"msg", "wire", "inline"}
-  Exempts = {"loopback", "internal"}
+  Exempts = {"internal"}
   Odds = {FALSE}
-  Burst = 2
+  Burst = 3
   StoreCap = 2
-  EntryBurst = 0
-  BigQs = {}
+  EntryBurst = 1
+  BigQs = {"big1"}
   MaxOps = 14
   MaxPend = 2
-  MaxAge = 3
-  TickSet = {1, 2}
-  CleanSet = {1, 2, 3}
+  MaxAge = 2
+  TickSet = {1}
+  CleanSet = {}
   Atomic = "call"
   KeyByForm = TRUE
   ChargeOnReplay = FALSE
